@@ -4,6 +4,7 @@
    Run with the current directory set to the output directory (driver/extracted). *)
 From Coq Require Import Extraction ExtrOcamlBasic.
 From Crusta Require Import Spec.AF Sat.Cnf Sat.Prog Model.Store Model.Encoders Model.Graph Model.Solvers Model.Equiv.
+From Crusta Require Import Model.Cli.
 Extraction Language OCaml.
 Separate Extraction
   (* spec oracle *)
@@ -23,4 +24,7 @@ Separate Extraction
   Solvers.run_query
   (* equivalence reduction (C19) *)
   Equiv.equivalency_new Equiv.init_to_reduced_arg Equiv.reduced_arg_to_init_args Equiv.propagate
-  Equiv.n_attacks_to Equiv.compute_classes.
+  Equiv.n_attacks_to Equiv.compute_classes
+  (* command-line tools (C05) *)
+  Cli.parse_main Cli.parse_wrapper Cli.exec Cli.iccma_instance Cli.apx_instance Cli.problems_21
+  Cli.read_problem_string Cli.wrapper_argv Cli.run_script Cli.parse_answer Cli.beqb Store.new_attack.
